@@ -19,7 +19,10 @@ STAGES = ["none", "bad_owner_signature", "expired", "missing_link", "unauthorise
           "failing_step_rule_match_from_undefined", "failing_last_step_rule", "sublayout_expired", "sublayout_missing_link",
           "sublayout_rule", "surplus_sublayout_missing_link", "surplus_sublayout_expired",
           # two links whose only difference is an additional artifact in one of them; three links for threshold 2, the third dissenting
-          "disagreeing_links_extra_artifact", "disagreeing_links_third_signer"]
+          "disagreeing_links_extra_artifact", "disagreeing_links_third_signer",
+          # the caller trusts two owner keys; one of them signed twice (two distinct signature values of a randomised scheme),
+          # the other not at all
+          "one_owner_signed_twice_other_not"]
 OUTCOMES = ["exit0", "exit1", "exit2", "exit127", "exit255", "killed", "not_found", "creates", "modifies", "deletes"]
 RULESETS = ["none", "satisfied", "violated_materials", "violated_products", "products_only_create_preexisting",
             "violated_products_named_like_a_step"]
@@ -102,6 +105,11 @@ def build_cell(W, rng, stage, outcome, rs, ninsp, level, keyset=FUNC, random_ext
     idx = {}
     idx["layout"] = len(reqs)
     reqs.append((layout, [inspected_owner], "new"))
+    if stage == "one_owner_signed_twice_other_not":
+        idx["layout_ec"] = len(reqs)
+        reqs.append(((layout if level == "top" else None) or layout, ["ec-a"], "new"))
+        idx["layout_ec2"] = len(reqs)
+        reqs.append((layout, ["ec-a"], "builder"))
     signer_build = [ka, kb][:thr]
     if stage == "disagreeing_links_third_signer":
         signer_build = [ka, kb, kd]
@@ -139,6 +147,18 @@ def build_cell(W, rng, stage, outcome, rs, ninsp, level, keyset=FUNC, random_ext
         files = {}
         prefix = "" if level == "top" else f"sub.{W.pfx(kd)}/"
         lw = w("layout")
+        two_owners = False
+        if stage == "one_owner_signed_twice_other_not":
+            if level == "top":
+                # signatures: two independent ECDSA signatures by ec-a; trusted: ec-a and ed0
+                a, b = w("layout_ec"), w("layout_ec2")
+                lw = a
+                lw["signatures"] = a["signatures"] + b["signatures"]
+                two_owners = True
+            else:
+                bb = bytearray(bytes.fromhex(lw["signatures"][0]["sig"]))
+                bb[9] ^= 0x01
+                lw["signatures"][0]["sig"] = bytes(bb).hex()
         if stage == "bad_owner_signature":
             b = bytearray(bytes.fromhex(lw["signatures"][0]["sig"]))
             b[5] ^= 0x04
@@ -172,7 +192,8 @@ def build_cell(W, rng, stage, outcome, rs, ninsp, level, keyset=FUNC, random_ext
             rs in ("none", "satisfied") or (rs == "products_only_create_preexisting" and outcome == "deletes"))
         meta = {"stage": stage, "outcome": outcome, "ruleset": rs, "ninsp": ninsp, "level": level, "tags": tags,
                 "expect": "accept" if (not stage_fails and insp_ok) else "reject", "stage_fails": stage_fails}
-        return scen.verify_case(top, [[W.kid("ed0"), W.pub("ed0")]], files, work_files={"pre.txt": "original\n"}, meta=meta)
+        trusted = [[W.kid("ed0"), W.pub("ed0")]] + ([[W.kid("ec-a"), W.pub("ec-a")]] if two_owners else [])
+        return scen.verify_case(top, trusted, files, work_files={"pre.txt": "original\n"}, meta=meta)
     return reqs, assemble
 
 
@@ -275,7 +296,7 @@ def main(ctx):
                           "levels": ["top", "delegated"], "cells": ncells}
     return common.finish(
         PROP, ctx.tier, ctx.seed, res, t0=ctx.t0, level="fault_enumeration",
-        rule="complete grid failing stage (19) x inspection outcome (10) x inspection rule set (6) x 1-2 inspections x "
+        rule="complete grid failing stage (20) x inspection outcome (10) x inspection rule set (6) x 1-2 inspections x "
              "{top-level, delegated layout}; every cell is one real in_toto_verify call in a fresh working directory, "
              "observed through the inspection command's own sentinel/snapshot files; every cell is non-trivial and "
              "distinct; thorough repeats the grid with other key types",
